@@ -243,7 +243,7 @@ func (v *c06) graphCheck(r *Run) {
 	for _, b := range r.Cfg.Bankroll {
 		chips += b
 	}
-	if r.Cfg.Amounts == "all" || true {
+	if chips < 1<<40 { // beyond that the bound is astronomically above any explored path (and would overflow)
 		bound := int64(12 + 4*r.Cfg.Seats()*(int(chips)+2))
 		if int64(maxLen) > bound {
 			x := &Ctx{Run: r, hist: []string{}}
